@@ -213,6 +213,13 @@ def story_case(r, ending=None, npieces=None, reject=None, nhash=1, heights=True,
             t = max(1, need - 1 - r.below(3))
             x = b.htlc(inv, t, "absent", forward=t, amount_tlv=atlv) if r.chance(1, 2) else b.htlc(inv, t, t, amount_tlv=atlv)
             hts = []
+        elif kind == "huge_solo":
+            # an amountless invoice whose declared amount is so large that amount + fee does not fit 64 bits, and ONE htlc carrying
+            # (and declaring) the largest 64-bit total: never covered, whatever the arithmetic saturates to
+            inv = b.add_invoice(0, None, ts=55)
+            big = 2**64 - 1 - [0, 1, 10, 1000][pos % 4]
+            x = b.htlc(inv, 2**64 - 1, 2**64 - 1, amount_tlv=big, forward=2**64 - 1)
+            hts = []
         elif kind == "other_invoice": x = b.htlc(b.add_invoice(0, amount, ts=77), 1000, total)
         elif kind == "near_hash":
             # an HTLC whose payment hash is NOT the invoice's but agrees with it under weak comparisons, fully funded on its own
